@@ -335,6 +335,17 @@ class ProcessNBBO(Contract):
             Cl("last_update", same_fl(c.heap()[c.self.oid]["last_update"], ev["time"]) if c.heap()[c.self.oid]["last_update"] is not None else FALSE),
         ]
 
+    def witness(self, c):
+        I = c.I
+        o = BookView(I.snapshot(), c.self)
+        ev = I.heap[c.event.oid]
+        k = sh(ev["contract"].t)
+        return {"alive": o.alive(k), "old_bid": lift_fl(o.col("bid_price", k)).v, "old_bid_nan": lift_fl(o.col("bid_price", k)).nan,
+                "old_ask": lift_fl(o.col("ask_price", k)).v, "old_ask_nan": lift_fl(o.col("ask_price", k)).nan,
+                "ev_bid": lift_fl(ev["bid_price"]).v, "ev_bid_nan": lift_fl(ev["bid_price"]).nan, "ev_ask": lift_fl(ev["ask_price"]).v,
+                "ev_ask_nan": lift_fl(ev["ask_price"]).nan, "key_is_static": sh(ev["contract"].t) == ev["contract"].t,
+                "book_exists": o.dom(k), "history_len": o.hlen("bid_price", k)}
+
     def perturbed(self, c):
         o, n = BookView(c.old, c.self), BookView(c.heap(), c.self)
         ev = c.old[c.event.oid]
@@ -346,6 +357,14 @@ class ProcessNBBO(Contract):
 class ProcessDiscontinued(Contract):
     relpath, qual = REL, "Exchange.process_EventContractDiscontinued"
     props = ("C14", "C13", "C11")
+
+    def witness(self, c):
+        I = c.I
+        o = BookView(I.snapshot(), c.self)
+        ev = I.heap[c.event.oid]
+        k = sh(ev["contract"].t)
+        return {"alive": o.alive(k), "book_exists": o.dom(k), "key_is_static": sh(ev["contract"].t) == ev["contract"].t,
+                "old_bid": lift_fl(o.col("bid_price", k)).v, "old_bid_nan": lift_fl(o.col("bid_price", k)).nan}
 
     def pre_state(self, I):
         ev = I.new_rec("EventContractDiscontinued", time=I.fl("d_time"), contract=KeyV(I.key("d_c")))
